@@ -3,6 +3,7 @@ use crate::Cfg;
 
 pub mod c01;
 pub mod c02;
+pub mod c03;
 pub mod c04;
 pub mod c05;
 pub mod c06;
@@ -19,6 +20,7 @@ pub fn run(prop: &str, cfg: &Cfg, rep: &mut Report) -> bool {
     match prop {
         "C01" => c01::run(cfg, rep),
         "C02" => c02::run(cfg, rep),
+        "C03" => c03::run(cfg, rep),
         "C04" => c04::run(cfg, rep),
         "C05" => c05::run(cfg, rep),
         "C06" => c06::run(cfg, rep),
